@@ -67,7 +67,7 @@ fn gen_leaf(r: &mut Rng) -> Object {
         _ => Object::Integer(r.range(0, 9)),
     }
 }
-struct RefPool<'a> { ids: &'a [ObjectId], dangling: Dangling }
+pub struct RefPool<'a> { pub ids: &'a [ObjectId], pub dangling: Dangling }
 fn gen_ref(r: &mut Rng, p: &RefPool) -> Object {
     if p.dangling != Dangling::None && r.chance(1, 6) {
         return Object::Reference(match p.dangling {
@@ -80,7 +80,7 @@ fn gen_ref(r: &mut Rng, p: &RefPool) -> Object {
     }
     Object::Reference(*r.pick(p.ids))
 }
-fn gen_obj(r: &mut Rng, depth: usize, p: &RefPool) -> Object {
+pub fn gen_obj(r: &mut Rng, depth: usize, p: &RefPool) -> Object {
     // streams only as top-level objects (a stream cannot be a direct value inside another object)
     let k = if depth >= 3 { r.below(5) } else if depth >= 1 { r.below(9) } else { r.below(10) };
     match k {
